@@ -40,9 +40,10 @@ class TW(cursorw.CW):
     # atoms remember the expression they stand for, so that calls can kill them
     def atom(self, key, e, st):
         self.nodes.setdefault(key, e)
-        if e.get("k") == "Call" and e.get("fn") == "strlen":
-            c = (((key, 1),), 0)
-            if c not in st.cons:
+        t_ = e.get("t") or {}
+        if (e.get("k") == "Call" and e.get("fn") == "strlen") or (t_.get("k") in ("int", "bool") and t_.get("signed") is False):
+            c = (((key, 1),), 0)            # a length, or any value of unsigned type, is not negative
+            if st is not None and c not in st.cons:
                 st.cons.append(c)
         return {key: 1}, 0
 
